@@ -96,6 +96,12 @@ def Denotes (E : Ext) : Conv → Val → Val → Prop
       (∀ p ∈ kvs, p.1.hashable = true) ∧ x = dictCtor kind (Val.dictOfPairs kvs)
   /- `Annotated[T, cond]`: a member of `T` on which the condition evaluates to `True` -/
   | .cond inner c _, v, x => Denotes E inner v x ∧ evalCond E Facts.stockCond c x = .ok true
+  /- `ValueOrList[T]`: ONE member of `T` (this reading wins), or — when `v` denotes no member of `T` — a
+     real sequence of members of `T`, item by item, as a list; the result says which reading it is -/
+  | .vol c, v, x =>
+    (∃ y, Denotes E c v y ∧ x = .wrap "ValueOrList:val" y) ∨
+    ((¬ ∃ y, Denotes E c v y) ∧ v.isSeq = true ∧
+      ∃ ys, AllRel (Denotes E c) v.seqItems ys ∧ x = .wrap "ValueOrList:list" (.list ys))
   /- outside the fragment: nothing is claimed -/
   | _, _, _ => False
 /-- left-most member of the list that `v` denotes a member of -/
@@ -124,6 +130,7 @@ def InFragment : Conv → Bool
   | .seq _ c => InFragment c
   | .dict _ k v => InFragment k && InFragment v
   | .cond inner _ _ => InFragment inner
+  | .vol c => InFragment c
   | _ => false
 def InFragmentL : List Conv → Bool
   | [] => true
@@ -147,6 +154,7 @@ def resultKind : Conv → Option Val.Kind
   | .seq "frozenset" _ => some .frozenset
   | .dict kind _ _ => some (if kind == "dict" then .dict else .mapOf)
   | .cond inner _ _ => resultKind inner
+  | .vol _ => some .wrap            -- a `ValueOrList` object, whichever reading
   | _ => none
 
 /-- `x` has exactly the runtime kind documented for `c` (no claim where the kind depends on the value:
